@@ -216,6 +216,8 @@ class Model:
         self.ready = False
         self.gens = []          # stack of suspended coroutines (bottom = main program)
         self.susp = []          # per coroutine: number of frames on the return stack while it is suspended
+        self.top_depth = []     # per coroutine: the frame number of its top-level body
+        self._trailing = False  # the last yield was a pause at the very end of its coroutine's top-level body
         self.halted = False
         self.do_stack = []      # [i, stop] records (shared by all frames, like the machine's)
         self.error = "none"
@@ -233,6 +235,7 @@ class Model:
         self.ready = True
         self.gens = [self._body_top(self.p["main"], 1, None)]
         self.susp = [1]
+        self.top_depth = [1]
 
     @property
     def done(self):
@@ -266,16 +269,26 @@ class Model:
             raise Unspecified("call at the recursion limit")
         self.gens.append(self._body_top(self.defs[word], base + 1, word))
         self.susp.append(base + 1)
+        self.top_depth.append(base + 1)
         return self._advance()
 
     def _advance(self):
         g = self.gens[-1]
         try:
+            self._trailing = False
             next(g)            # runs until the next pause
+            if self._trailing:
+                # CALIBRATED: a pause that is the last word of the program (or of a word started with call()) leaves
+                # that segment before it suspends: the machine is done (the call is complete) when it stops there
+                self._trailing = False
+                self.gens.pop()
+                self.susp.pop()
+                self.top_depth.pop()
             return "none"
         except StopIteration:
             self.gens.pop()
             self.susp.pop()
+            self.top_depth.pop()
             return "none"
         except ForthErr as e:
             self.error = e.kind
@@ -286,6 +299,7 @@ class Model:
             self.halted = True
             self.gens = []
             self.susp = []
+            self.top_depth = []
             self.do_stack = []
             self.error = "user_halt"
             return "user_halt"
@@ -325,7 +339,7 @@ class Model:
 
     EXIT = "exit"
 
-    def _body(self, body, depth, word):
+    def _body(self, body, depth, word, at_end=None):
         """Executes a segment living in frame number `depth`. Returns EXIT when an `exit` must unwind further."""
         for node in body:
             k = node[0]
@@ -358,14 +372,20 @@ class Model:
                 while self.do_stack[mark - 1][0] < self.do_stack[mark - 1][1]:     # CALIBRATED: test before body
                     self._tick()
                     self._enter(depth)
-                    r = yield from self._body(node[1], depth + 1, word)
+                    stepped = [False]
+
+                    def step(k=k, mark=mark, stepped=stepped):
+                        if k == "+do":
+                            self.do_stack[mark - 1][0] += self._pop()
+                        else:
+                            self.do_stack[mark - 1][0] += 1
+                        stepped[0] = True
+                    r = yield from self._body(node[1], depth + 1, word, at_end=step)
                     if r == self.EXIT:
                         del self.do_stack[mark - 1:]
                         return r
-                    if k == "+do":
-                        self.do_stack[mark - 1][0] += self._pop()
-                    else:
-                        self.do_stack[mark - 1][0] += 1
+                    if not stepped[0]:
+                        step()
                 del self.do_stack[mark - 1:]
             elif k == "until":
                 while True:
@@ -413,6 +433,13 @@ class Model:
                 # a pause that ends its segment leaves that frame before suspending (matters only for the
                 # recursion limit seen by a later call())
                 self.susp[-1] = depth - 1 if node is body[-1] else depth
+                if node is body[-1] and self.top_depth and depth == self.top_depth[-1]:
+                    self._trailing = True
+                if node is body[-1] and at_end is not None:
+                    # CALIBRATED: a pause that is the last word of a do-loop body ends the body before it suspends: the
+                    # loop index is stepped (and the increment of +loop popped) at the pause, not at the resume -
+                    # visible only to a word called while the program is paused there
+                    at_end()
                 yield
             elif k == "var":
                 name, op = node[1], node[2]
